@@ -282,7 +282,7 @@ var iupacBytes = []byte("ACGTURYKMBDHVNSWacgturykmbdhvnsw-*x5")
 func c05Gen(t *rapid.T) c05Case {
 	var bs []byte
 	if rapid.IntRange(0, 3).Draw(t, "alpha") > 0 {
-		L := rapid.IntRange(1, 12).Draw(t, "L")
+		L := drawLen(t, 1, 12, "L")
 		off := rapid.IntRange(0, 11).Draw(t, "off")
 		for i := 0; i < L; i++ {
 			bs = append(bs, strandAlphabet[(off+i)%12])
@@ -292,8 +292,11 @@ func c05Gen(t *rapid.T) c05Case {
 	}
 	L := len(bs)
 	c := c05Case{Bytes: string(bs)}
-	cfg := locCfg{L: L, Hot: []int{0, 1, L - 1, L, L / 2}, MaxDepth: 3, MaxParts: 6, Ambig: true, Sites: true, MaxSpan: 3}
-	c.Feats = genFeats(t, cfg, rapid.IntRange(1, 4).Draw(t, "nfeat"), "f", true)
+	cfg := locCfg{L: L, Hot: []int{0, 1, L - 1, L, L / 2}, MaxDepth: 3, MaxParts: scopeParts(6), Ambig: true, Sites: true, MaxSpan: 3}
+	if genLarge {
+		cfg.MaxSpan = 0
+	}
+	c.Feats = genFeats(t, cfg, drawCount(t, 1, 4, 9, "nfeat"), "f", true)
 	// some features as raw literals of a given arity (every arity 1..6 of non-reduced parts)
 	if rapid.Bool().Draw(t, "addraw") {
 		ar := rapid.IntRange(1, 6).Draw(t, "arity")
@@ -315,6 +318,10 @@ func TestC05(t *testing.T) {
 	st := newStats("C05")
 	defer st.flush()
 	rapidPart(t, c05Prop, st, "rapid", pick(30000, 250000), c05Gen)
+	if t.Failed() {
+		return
+	}
+	rapidLargePart(t, c05Prop, st, pick(1000, 15000), c05Gen)
 	if t.Failed() {
 		return
 	}
